@@ -60,6 +60,11 @@ class TFLiteSubgraph:
         self.outputs = self.get_tensors_from_indices_remove_duplicates(subgraph.OutputsAsNumpy(), "output")
         self.inputs = self.get_tensors_from_indices_remove_duplicates(subgraph.InputsAsNumpy(), "input")
         fixup_tensors(self.inputs, self.tensors)
+        # The graph is built on the de-duplicated lists, but the interface of the model (number and order of its
+        # inputs and outputs) must not change: remember the file's lists so that the writer can emit them again.
+        # Outputs are remembered as positions in the de-duplicated list because output tensors can be replaced.
+        self.inputs_in_file_order = [self.tensors[idx] for idx in subgraph.InputsAsNumpy()]
+        self.output_positions = [self.outputs.index(self.tensors[idx]) for idx in subgraph.OutputsAsNumpy()]
 
         self.outputs.extend(self.virtual_outputs)
 
@@ -71,7 +76,7 @@ class TFLiteSubgraph:
                 tensors.append(tensor)
             else:
                 print(
-                    "Warning: Subgraph {0} tensor ({1}) with idx = {2} already seen. Removing the duplicate.".format(
+                    "Warning: Subgraph {0} tensor ({1}) with idx = {2} already seen. Using it once internally.".format(
                         warning_str, tensor, idx
                     )
                 )
@@ -313,8 +318,9 @@ class TFLiteGraph:
             for idx, tflite_sg in enumerate(self.subgraphs):
                 sg = self.nng.subgraphs[idx]
                 sg.name = tflite_sg.name
-                sg.original_inputs = tflite_sg.inputs  # Preserve the original input order
+                sg.original_inputs = tflite_sg.inputs_in_file_order  # Preserve the original input list
                 sg.output_tensors = tflite_sg.outputs
+                sg.original_output_positions = tflite_sg.output_positions
                 sg.virtual_outputs = tflite_sg.virtual_outputs
 
             parsing_step = "parsing metadata length"
